@@ -95,6 +95,9 @@ func runC02case(t *vf.T, c c02case) {
 		if c.Kills[0].What == "kill-target-midbody" {
 			sig += "/mid-body"
 		}
+		if c.Kills[0].What == "kill-target-midbody-hold" {
+			sig += "/mid-body-held"
+		}
 	}
 	switch {
 	case out.TimedOut:
@@ -118,21 +121,20 @@ func runC02case(t *vf.T, c c02case) {
 		// keepalive of a live machine timed out (a starved host). That is a machine loss like any
 		// other ("at any moments"): the run may report an error, but the stricter expectations
 		// below, which assume that the scripted kill was the only loss, do not apply.
-		lost := ls.lostMachines()
-		if len(lost) > kills {
+		if ls.lossesNotCausedByMonitor(kills, true) {
 			t.Count("runs_with_machine_losses_not_caused_by_the_monitor", 1)
 			t.Nontrivial("")
 			return
 		}
 		if kills == 0 {
-			t.Violate(sig+" error-without-loss", fmt.Sprintf("no machine was killed (the kill point was never reached) and the executor recorded no machine loss, but the run failed: %v", e))
+			t.Violate(sig+" error-without-loss", fmt.Sprintf("no machine was killed (the kill point was never reached) and the executor recorded no machine loss, but the run failed: %v | kill actions fired: %d | library log: %s", e, fired, logTail(14)))
 			return
 		}
 		if len(c.Kills) == 1 && kills == 1 && ls.IP != nil && atomic.LoadInt64(&ls.IP.held) == 1 {
 			// The executor had recorded the loss of the machine before the reply of the completed
 			// task was delivered; nothing else failed and replacements can be started: the
 			// lost output must be recomputed, and a give-up is not an acceptable outcome.
-			t.Violate(sig+" error-after-recorded-single-loss", fmt.Sprintf("one machine was lost and the executor had recorded the loss before the completed task's reply arrived; replacements were available, but the run failed: %.400s | library log: %s", e.Error(), logTail(12)))
+			t.Violate(sig+" error-after-recorded-single-loss err="+c02errClass(e), fmt.Sprintf("one machine was lost and the executor had recorded the loss before the held reply (or the rest of the cut reply) was delivered; replacements were available, but the run failed: %.400s | library log: %s", e.Error(), logTail(12)))
 			return
 		}
 		if len(c.Kills) == 1 && !isGiveUp(e) && out.RunErr != nil {
@@ -170,6 +172,17 @@ func runC02case(t *vf.T, c c02case) {
 		}
 		t.Nontrivial("")
 	}
+}
+
+// c02errClass names the kind of an error for signatures.
+func c02errClass(e error) string {
+	s := e.Error()
+	for _, k := range []string{"integrity error", "unexpected EOF", "consecutive", "too many tries", "invalid invocation", "resource unavailable", "context"} {
+		if strings.Contains(s, k) {
+			return strings.ReplaceAll(k, " ", "-")
+		}
+	}
+	return "other"
 }
 
 func errShort(e error) string {
@@ -221,6 +234,11 @@ func runC02(r *vf.Runner) {
 				continue
 			}
 			run(c02case{Program: p, Kills: []ipAction{{Method: "Worker.Read", Ordinal: k, When: "after", What: "kill-target-midbody"}}})
+			// the same, with the broken stream surfacing only after the executor has recorded the loss:
+			// the reader's retry must find the output recomputed and resume at its offset
+			if !r.Quick() || k%8 == 0 || k == bounds["Worker.Read"]-2 {
+				run(c02case{Program: p, Kills: []ipAction{{Method: "Worker.Read", Ordinal: k, When: "after", What: "kill-target-midbody-hold"}}})
+			}
 		}
 		// kill another machine than the one addressed
 		for k := 0; k < 6; k++ {
